@@ -149,6 +149,7 @@ var _ = shared.NewCounter
 //@   rank 1
 //@   only-writers [restart-counter-written-only-here C06] F:interpreter/context.Context.Restarts : restart
 //@   only-writers [cached-flag-written-only-by-the-lookup C06] F:interpreter/process.Process.Cached : ProcessRecv
+//@   only-writers [hit-miss-state-written-only-by-the-lookup C06] F:interpreter/context.Context.State : ProcessRecv
 //@   ensures [log-once C06] logOnce(i, err)
 //@   ensures [bounded C06] err == nil ==> old(i.ctx.Restarts) < limitations.MaxVarnishRestarts
 //@   callassert [restart-bound C06] ProcessRecv: i.ctx.Restarts <= limitations.MaxVarnishRestarts && i.ctx.Restarts == old(i.ctx.Restarts) + 1
@@ -279,6 +280,7 @@ var _ = shared.NewCounter
 //@ func (*Interpreter).ProcessExpression [C13]
 // The current frame - the local-variable map and the regex capture object - is replaced only by the two
 // call functions (and their deferred restores); the captures also by the `~` operator, which the property allows.
+//@   only-writers [C13] F:interpreter.Interpreter.callStack : ProcessSubroutine ProcessSubroutine$1 ProcessFunctionSubroutine ProcessFunctionSubroutine$1
 //@   only-writers [C13] F:interpreter.Interpreter.localVars : ProcessSubroutine ProcessSubroutine$1 ProcessFunctionSubroutine ProcessFunctionSubroutine$1
 //@   only-writers [C13] F:interpreter/context.Context.RegexMatchedValues : ProcessSubroutine ProcessSubroutine$1 ProcessFunctionSubroutine ProcessFunctionSubroutine$1 Regex
 //@   only-writers [C13] F:interpreter/value. : Assign Addition Subtraction Multiplication Division Remainder BitwiseAND BitwiseOR BitwiseXOR LeftShift RightShift LeftRotate RightRotate LogicalAND LogicalOR UpdateHash Set Unset assignHeaderValue getDirectorConfig getDirectorConfigBackend setDirectorConfigProperty Increment Testing_inject_variable
